@@ -11,7 +11,8 @@ for d in seeded/*/; do
   id=$(basename $d)
   [ -n "$only" ] && [[ "$id" != $only* ]] && continue
   [ -n "$SKIP_UNTIL" ] && [[ "$id" < "$SKIP_UNTIL" ]] && continue
-  props=$(python3 -c "import json;print(' '.join(json.load(open('$d/meta.json'))['detected_by']))")
+  props=$(python3 -c "import json;m=json.load(open('$d/meta.json'));print('' if m.get('superseded_by') else ' '.join(m['detected_by']))")
+  [ -z "$props" ] && { echo "$id superseded-by-a-later-fix"; continue; }
   git -C $R apply "$(pwd)/$d/patch.diff" 2>/dev/null || { echo "$id PATCH-DOES-NOT-APPLY"; git -C $R checkout -- . ; continue; }
   line="$id"
   for p in $props; do
